@@ -3,9 +3,12 @@ import json
 import re
 from . import common, gen, c09
 
-LEAN_TARGETS = ["TsrunVerif.Props.C19"]
-THEOREMS = ["TsrunVerif.Run." + t for t in ["map_result_eq", "advance_add", "run_eq_steps", "single_steps_eq_run", "terminal_stable"]]
+LEAN_TARGETS = ["TsrunVerif.Props.C19", "TsrunVerif.Props.C19Compile"]
+THEOREMS = ["TsrunVerif.Run." + t for t in ["map_result_eq", "advance_add", "run_eq_steps", "single_steps_eq_run", "terminal_stable"]] + \
+    ["TsrunVerif.Compile." + t for t in ["run_eq_advance", "compiled_chunks_agree", "completes_under_every_schedule", "throws_under_every_schedule"]]
 ASSUMPTIONS = [
+    "over M-Compile (the compiler and VM model of C01, tied to the code by the instruction-listing correspondence run by C01) the schedule independence is instantiated with the model VM's step function: "
+    "every chunking of a compiled program of the modelled core ends in the halt / uncaught-error state the reference semantics prescribes",
     "M-Run transcribes the two result-mapping copies (run_vm_to_completion for eval, process_vm_result for step) and treats the VM as an arbitrary deterministic step function; "
     "the translator part of the check re-reads both Rust match blocks on every run and requires them to be textually identical after normalisation (so the single Lean transcription covers both)",
     "that the five entry points (eval, prepare+step, step with interleaved API reads and collections, C API tsrun_run, C API tsrun_step) and the three module roles produce equal transcripts "
